@@ -12,5 +12,6 @@ rsync -a --exclude .git /repo/ $scratch/ || exit 2
 (cd $scratch && GOFLAGS=-mod=mod GOPROXY=off GOSUMDB=off GOTOOLCHAIN=local go1.26.8 build ./... ) || { echo "BUILD FAILED"; rm -rf $scratch; exit 2; }
 cd /verif && VERIF_REPO=$scratch ./check $id $tier | cut -c1-400
 rc=${PIPESTATUS[0]}
-rm -rf $scratch
+tag=$(python3 -c "import hashlib,os,sys; print(hashlib.sha1(os.path.realpath(sys.argv[1]).encode()).hexdigest()[:10])" $scratch)
+rm -rf $scratch /verif/bin/*-$tag.test /verif/harness/.alt-$tag.mod /verif/harness/.alt-$tag.sum
 exit $rc
